@@ -244,6 +244,8 @@ func runUUID(e *Env) {
 	n := 4 + tp.Next(21)
 	var years []int
 	prev := gocql.UUID{0xa5, 0x5a, 0xff, 0x0f, 0xf0, 0x33, 0xcc, 0x99, 0x66, 0xff, 0x00, 0xa5, 0x5a, 0x0f, 0xf0, 0xff}
+	var keptText, keptJSON []byte
+	var keptOf gocql.UUID
 	for i := 0; i < n; i++ {
 		var t time.Time
 		switch tp.Next(4) {
@@ -283,6 +285,30 @@ func runUUID(e *Env) {
 		if err := reused.UnmarshalJSON([]byte(`"` + u.String() + `"`)); err != nil || reused != u {
 			k.Violate("C19", "C19/print-parse-roundtrip", "UnmarshalJSON(%s) into a variable holding %s gave %s, err=%v", u, prev, reused, err)
 			return
+		}
+		// the printing entry points other than String(): what they returned for the previous
+		// UUID is kept and read only now, after this one has been printed too (a caller may
+		// keep the slice it was given)
+		if mt, err := u.MarshalText(); err != nil {
+			k.Violate("C19", "C19/print-parse-roundtrip", "MarshalText of %s failed: %v", u, err)
+			return
+		} else if mj, err := u.MarshalJSON(); err != nil {
+			k.Violate("C19", "C19/print-parse-roundtrip", "MarshalJSON of %s failed: %v", u, err)
+			return
+		} else {
+			if keptText != nil {
+				var back gocql.UUID
+				if err := back.UnmarshalText(keptText); err != nil || back != keptOf {
+					k.Violate("C19", "C19/printed-text-changed-afterwards", "the text MarshalText returned for %s reads %q after another UUID has been printed (err=%v)", keptOf, keptText, err)
+					return
+				}
+				back = gocql.UUID{}
+				if err := back.UnmarshalJSON(keptJSON); err != nil || back != keptOf {
+					k.Violate("C19", "C19/printed-text-changed-afterwards", "the text MarshalJSON returned for %s reads %q after another UUID has been printed (err=%v)", keptOf, keptJSON, err)
+					return
+				}
+			}
+			keptText, keptJSON, keptOf = mt, mj, u
 		}
 		prev = u
 		// any RFC 4122 version-1 UUID of this instant (arbitrary clock sequence and node) lies
